@@ -152,6 +152,28 @@ def run(tier, seed):
                        candidate=m.get("candidate", False))
     from props import c21_user
     c21_user.verify(rep)
+    # The last clause of the property - a frame goes back onto the bus with
+    # enabled write datagrams only if the group's program processed it in that
+    # pass - also rests on the dispatcher: only frames it hands to the group
+    # program are activated, and the others leave through the identification
+    # datagram / counter discipline.  Its step contract (C22) is re-proved here.
+    from contracts import c22_dispatcher as S22
+    from props import c22
+    dinfo = S22.build()
+    rep.function("EtherXDP.assemble() bytes", dinfo["code"].hex())
+    djobs, dtexts, _ = c22.step_jobs(dinfo, rep)
+    for name, m in parallel.aggregate(parallel.discharge(djobs)).items():
+        res = parallel.to_result(m)
+        if name.startswith("CANARY"):
+            rep.canary("dispatcher " + name, res)
+            continue
+        rp = None
+        if res.verdict == smt.REFUTED and isinstance(m.get("data"), dict) and "packet" in m["data"]:
+            rp = lambda _m, d=m["data"]: c22.replay_step(dinfo, d)
+        rep.obligation("dispatcher." + name, res, func="EtherXDP program bytes", text=dtexts[name], replay=rp,
+                       candidate=m.get("candidate", False))
+    rep.assume("dispatcher step contract of C22 (re-proved in this run on the assembled bytes of EtherXDP); the "
+               "history argument over the step relation is C22's")
     return rep.finish(
         explanation="(b) bpfvc: the assembled bytes of real FastSyncGroup programs (5 layouts) are proved, on "
         "all paths and for all frames/counters, to re-enable exactly the write datagrams, clear their working "
